@@ -273,7 +273,7 @@ TAIL = r'''
   (framing, selector and limit logic and the in-tree sparse and ADPCM codecs are modelled and proved); C05 totality is established by running the parsers (sampling), the theorems
   cover the front loops and the allocation rule; C09 the rayon runtime; C10 collision resistance of MD5,
   RSA, multi-byte checksum collisions; C12 real crash injection is by strace fault injection on the syscall
-  trace, not power loss; C13 lights, emitters, colour / texture animations and bone rotations are not generated (.anim files only as parser input in C05);
+  trace, not power loss; C13 lights, emitters, colour / texture animations and bone rotations are not generated; the legacy .anim container cannot be read back (D65);
   C14/C15/C13 whole-file content preservation is an oracle (needs the real parsers), the theorems cover
   the derived data (offset tables, string tables, relocation); C15 group content cannot be parsed back by the
   crate; C16 lossy pixel content; C19 scheduling (lock graph + stress with watchdog instead); C20 conversion sub-commands other than `blp convert` and `mpq create/extract` are not driven.
